@@ -2721,20 +2721,20 @@ static void build_stmt(WorkList *list, ScopeStack *scopes, ASTNode *stmt, int in
             build_expr(list, stmt->as.match_expr.expr, env);
             emit_literal(list, ";\n");
 
-            emit_indent_item(list, indent + 1);
-            emit_literal(list, "switch (_m.tag) {\n");
-
+            /* The arms are an if / else-if chain on the tag, not a C switch:
+             * a `break` in an arm must leave the enclosing nanolang loop, and
+             * inside a switch it would only leave the switch */
             for (int i = 0; i < stmt->as.match_expr.arm_count; i++) {
                 const char *variant_name = stmt->as.match_expr.pattern_variants[i];
                 const char *binding_name = stmt->as.match_expr.pattern_bindings[i];
                 ASTNode *arm_body = stmt->as.match_expr.arm_bodies[i];
 
-                emit_indent_item(list, indent + 2);
-                emit_literal(list, "case nl_");
+                emit_indent_item(list, indent + 1);
+                emit_literal(list, i == 0 ? "if (_m.tag == nl_" : "else if (_m.tag == nl_");
                 emit_literal(list, union_c_name);
                 emit_literal(list, "_TAG_");
                 emit_literal(list, variant_name);
-                emit_literal(list, ": {\n");
+                emit_literal(list, ") {\n");
 
                 int variant_field_count = 0;
                 if (udef) {
@@ -2783,19 +2783,17 @@ static void build_stmt(WorkList *list, ScopeStack *scopes, ASTNode *stmt, int in
                     }
                 }
 
-                emit_indent_item(list, indent + 3);
-                emit_literal(list, "break;\n");
-                emit_indent_item(list, indent + 2);
+                emit_indent_item(list, indent + 1);
                 emit_literal(list, "}\n");
             }
 
-            /* Add default case with __builtin_unreachable() for exhaustive matches
+            /* Add a final else with __builtin_unreachable() for exhaustive matches
              * This tells the compiler that all variants are covered, avoiding
              * "control reaches end of non-void function" warnings on GCC */
-            emit_indent_item(list, indent + 2);
-            emit_literal(list, "default: __builtin_unreachable();\n");
             emit_indent_item(list, indent + 1);
-            emit_literal(list, "}\n");
+            emit_literal(list, stmt->as.match_expr.arm_count > 0
+                               ? "else { __builtin_unreachable(); }\n"
+                               : "__builtin_unreachable();\n");
             emit_indent_item(list, indent);
             emit_literal(list, "}\n");
             break;
